@@ -1623,9 +1623,12 @@ func c01Timestamps(c *core.Ctx, r *core.Report) {
 		for _, f := range p.Syntax {
 			for _, d := range f.Decls {
 				fd, ok := d.(*ast.FuncDecl)
-				if !ok || fd.Body == nil || fd.Name.Name != fname {
+				if !ok || fd.Body == nil || strings.HasSuffix(c.Fset.Position(fd.Pos()).Filename, "_test.go") {
 					continue
 				}
+				// the anchored function, or any other function of the package that dispatches on the timestamp
+				// type (the arms moved into a helper, a width table function)
+				here := fd.Name.Name
 				ac := &accountCtx{info: info, defs: map[types.Object]ast.Expr{}}
 				ast.Inspect(fd.Body, func(n ast.Node) bool {
 					sw, ok := n.(*ast.SwitchStmt)
@@ -1641,8 +1644,9 @@ func c01Timestamps(c *core.Ctx, r *core.Report) {
 							}
 							nArms++
 							w := widths[ts]
-							construct := fmt.Sprintf("%s.%s:%s", p.Types.Name(), fname, ts)
-							// every append / cursor step / decoder in the arm has width w
+							construct := fmt.Sprintf("%s.%s:%s", p.Types.Name(), here, ts)
+							// every append / cursor step / decoder in the arm has width w; an arm that only answers
+							// with a constant (a width table: `case TS_Type16: return 2`) must answer w
 							ok := true
 							detail := ""
 							steps := 0
@@ -1662,6 +1666,15 @@ func c01Timestamps(c *core.Ctx, r *core.Report) {
 											steps++
 											if k, isK := constIntOf(info, x.Rhs[0]); !isK || k != w {
 												ok, detail = false, fmt.Sprintf("cursor advances by %s per record", types.ExprString(x.Rhs[0]))
+											}
+										}
+									}
+								case *ast.ReturnStmt:
+									if len(x.Results) == 1 {
+										if k, isK := constIntOf(info, x.Results[0]); isK {
+											steps++
+											if k != w {
+												ok, detail = false, fmt.Sprintf("answers a width of %d", k)
 											}
 										}
 									}
